@@ -472,6 +472,10 @@ class SymReal:
             if n.denominator == 2:
                 r = self.sqrt()
                 return r ** n.numerator
+            # x ** (1/k) written as a float (e.g. 1/3): k-th root of a non-negative number
+            for k in (3, 4, 5, 6):
+                if abs(float(n) - 1.0 / k) < 1e-15:
+                    return ctx().fresh_root(self, k)
             return _uf("pow", self, SymReal.const(n))
         return NotImplemented
 
